@@ -421,6 +421,8 @@ CliStep(ev) ==
              THEN "plus.one" ELSE "count")
       /\ Chk("C16", "no.counters", (observable /\ ev.code = 0 /\ ~ev.args.c) => cnt = <<>>, ev, "no -c")
       /\ Mark("C16", observable /\ ~wild /\ Len(ai) > 0, ev)
+      \* DRIFT: with a negative update interval the table is refreshed once per applied frame (wild frames included)
+      /\ Chk("DRIFT", "refresh.per.frame", (observable /\ ev.code = 0 /\ ~ambiguous) => ev.nsnaps = Len(cIdx), ev, ev.profile)
 
 
 (***************************** C17 country *********************************)
